@@ -50,28 +50,32 @@ PROPS = {
     },
     "C20": {
         "level": "proof",
-        "explanation": "Per 64-byte chunk, Kani/CBMC executes the real process_chunk_64 of the AVX2, SSE2 and BMI2 engines (real "
-                       "core::arch intrinsics; PDEP through its SDM model) for ALL 2^512 chunks, all pairwise-distinct (delimiter, quote, "
-                       "newline) triples and both carries and proves the returned (markers, newlines, carry) equal 64 steps of the scalar "
-                       "state machine of dsv::parser::build_index; the shared quote-mask primitives are proved against the toggle "
-                       "definition for all 2^64 bitmaps. The outer chunk/tail loops, BitWriter and the dispatcher are covered by bounded "
-                       "whole-engine comparisons at fixed lengths (labelled bounded, not counted as proved).",
-        "trusted_base": COMMON_TRUST + [MODELS + "_pdep_u64"],
-        "assumptions": ["NEON/SVE2 engines unverified", "configurations with equal special bytes are outside the property"],
+        "explanation": "Per 64-byte chunk, Kani/CBMC executes the real process_chunk_64 of the AVX2, SSE2 and BMI2 engines (real core::arch "
+                       "intrinsics; PDEP through its SDM model) for ALL 2^512 chunks, all pairwise-distinct (delimiter, quote, newline) triples "
+                       "and both carries and proves the returned (markers, newlines, carry) equal 64 steps of the scalar state machine; the "
+                       "quote-mask primitives are proved for all 2^64 bitmaps. Verus then proves, on the extracted text and for texts of "
+                       "every length, that the outer loops of the three engines (chunk loop with carried quote state, zero-padded and masked "
+                       "tail), their wrappers, the runtime dispatcher (CPU-feature answers arbitrary) and the scalar builder all produce the "
+                       "reference marker/newline bit vectors; the rank/select layer over those vectors is unit c21_index.",
+        "trusted_base": COMMON_TRUST + [MODELS + "_pdep_u64", "Verus 0.2026.09.13 + Z3; seam R4 between the Kani chunk contract and the Verus chunk stub",
+                                        "BitWriter contracts (Kani c05_bitwriter_*)"],
+        "assumptions": ["NEON/SVE2 engines unverified", "configurations with equal special bytes are outside the property", "text.len() <= u32::MAX (asserted by the index constructor)"],
     },
     "C05": {
         "level": "proof",
-        "explanation": "The equality of the three engines is decomposed into contracts: (1) PFSM tables == reference machine for all 256 "
-                       "bytes x 4 states; (2) classify_chars of the AVX2 and SSE2 engines is exact per lane for all chunks; (3) one step of "
-                       "process_chunk_standard / process_chunk_simple on any lane of a real classification equals one step of the reference "
-                       "machine in every state, including the bits appended to IB and BP; (4) BitWriter appends exactly the given bits from "
-                       "any state. All four are complete Kani proofs (loop-free or bounded by the chunk width). The per-lane loop indexing is "
-                       "additionally exercised on three consecutive lanes and the outer chunk/tail loops on fixed-length inputs "
-                       "(labelled bounded).",
-        "trusted_base": COMMON_TRUST + [MODELS + "_mm256_min_epu8, _mm256_sub_epi8, _mm_min_epu8, _mm_sub_epi8"],
+        "explanation": "Verus proves, on the extracted text of the real functions and for inputs of every length, that the byte-at-a-time "
+                       "reference builders (standard and simple encodings), the table-driven PFSM builder, json::standard::build_semi_index and "
+                       "the AVX2 and SSE2 builders (per-lane chunk processors process_chunk_standard / process_chunk_simple and the outer "
+                       "chunk loops with carried state and zero-padded tail) all emit exactly the fold of the reference state machine (IB bits, "
+                       "BP bits, final state); the code's state_machine is proved equal to an independent restatement of the machine. The "
+                       "pieces Verus cannot see are complete Kani proofs used as callee contracts: classify_chars per lane for all chunks "
+                       "(real intrinsics), PFSM tables == reference for all 256 bytes x 4 states, BitWriter write_bit/write_bits from any state.",
+        "trusted_base": COMMON_TRUST + [MODELS + "_mm256_min_epu8, _mm256_sub_epi8, _mm_min_epu8, _mm_sub_epi8",
+                                        "Verus 0.2026.09.13 + Z3; seam R4 between Kani-proved kernel contracts and Verus stubs"],
         "assumptions": ["NEON/SVE2 engines unverified",
-                        "the two-line runtime dispatchers json::simd::build_semi_index_{standard,simple} (cpuid) are not executed by Kani",
-                        "outer chunk loops of the SIMD builders and the PFSM/scalar byte loops: bounded evidence only (see coverage.bounded)"],
+                        "the two-line runtime dispatchers json::simd::build_semi_index_{standard,simple} (cpuid) are not executed",
+                        "BitWriter::finish / write_zeros contracts assumed (write_bit and write_bits are proved)",
+                        "usize is 64 bits"],
     },
     "C07": {
         "level": "proof",
